@@ -282,18 +282,19 @@ def h2_header_list_limit(li: int, size: int) -> bool:
 
 @harness(
     "C18",
-    dom={"kmax": (1, 2), "extra": (0, 1), "ai": (0, 3), "seg": (0, 2), "cut": (0, 10), "body": "bool"},
+    dom={"kmax": (1, 2), "extra": (0, 1), "ai": (0, 4), "seg": (0, 2), "cut": (0, 10), "body": "bool", "flavour": (0, 1)},
     split={"ai": "each"},
-    witnesses=[{"kmax": 1, "extra": 1, "ai": 3, "seg": 1, "cut": 9, "body": True}, {"kmax": 2, "extra": 0, "ai": 0, "seg": 0, "cut": 0, "body": False}],
+    witnesses=[{"kmax": 1, "extra": 1, "ai": 3, "seg": 1, "cut": 9, "body": True, "flavour": 0}, {"kmax": 2, "extra": 0, "ai": 0, "seg": 0, "cut": 0, "body": False, "flavour": 0},
+               {"kmax": 1, "extra": 1, "ai": 1, "seg": 0, "cut": 0, "body": False, "flavour": 1}],
     budget=120,
     per_path=120,
-    bounds="HTTP/1.1 connections carrying exactly keep_alive_max_requests (1 or 2) requests, or one more, with/without bodies, x 4 application styles x segmentation {one read, one cut, byte-wise}: the limit-th response announces close, nothing beyond it is served",
+    bounds="HTTP/1.1 connections carrying exactly keep_alive_max_requests (1 or 2) requests, or one more, with/without bodies, x 5 application styles x segmentation {one read, one cut, byte-wise} x worker flavour: the limit-th response announces close, nothing beyond it is served",
     encodes=["hypercorn/protocol/h11.py::H11Protocol.stream_send", "hypercorn/protocol/h11.py::H11Protocol._create_stream", "hypercorn/protocol/h11.py::H11Protocol._maybe_recycle"],
     stubs=["tier B runtime (the pipeline rig and reference of vf.harness.c06.h1_pipeline)"],
 )
-def h1_keep_alive_max(kmax: int, extra: int, ai: int, seg: int, cut: int, body: bool) -> bool:
+def h1_keep_alive_max(kmax: int, extra: int, ai: int, seg: int, cut: int, body: bool, flavour: int) -> bool:
     """
-    pre: DOM(h1_keep_alive_max, kmax=kmax, extra=extra, ai=ai, seg=seg, cut=cut, body=body)
+    pre: DOM(h1_keep_alive_max, kmax=kmax, extra=extra, ai=ai, seg=seg, cut=cut, body=body, flavour=flavour)
     post: _
     """
     enter()
@@ -301,19 +302,18 @@ def h1_keep_alive_max(kmax: int, extra: int, ai: int, seg: int, cut: int, body: 
 
     kmax = conc(kmax, 1, 2)
     extra = conc(extra, 0, 1)
-    ai = conc(ai, 0, 3)
+    ai = conc(ai, 0, 4)
+    flavour = conc(flavour, 0, 1)
     seg = conc(seg, 0, 2)
     cut = conc(cut, 0, 10)
     body = True if body else False
     n = kmax + extra
-    if ai == 3 and extra:
-        return done(True, skipped="bytes after the last allowed request: known finding of C06")
     r = 1 if body else 0  # POST with a body / GET
     kidx = {1: 1, 2: 2}[kmax]  # index into c06's table [3, 1, 2, 1000]
     if c06.QUICK and n == 3 and seg != 0:
         seg = 0
-    ok, vec = c06.pipeline(n, r, r, r, seg, min(cut, c06.CUTMAX), ai, kidx)
-    return done(ok, kmax=kmax, requests=n, app=c06.APPS[ai], seg=seg, cut=cut, body=body, why=vec.get("why", ""))
+    ok, vec = c06.pipeline(n, r, r, r, seg, min(cut, c06.CUTMAX), ai, kidx, "trio" if flavour else "asyncio")
+    return done(ok, kmax=kmax, requests=n, app=c06.APPS[ai], seg=seg, cut=cut, body=body, flavour=["asyncio", "trio"][flavour], why=vec.get("why", ""))
 
 
 # ------------------------------------------------------------------ worker recycling with jitter (asyncio worker_serve)
@@ -321,24 +321,28 @@ def h1_keep_alive_max(kmax: int, extra: int, ai: int, seg: int, cut: int, body: 
 
 @harness(
     "C18",
-    dom={"m": (0, 3), "j": (0, 2), "r": (0, 2), "none": "bool", "rk": (0, 3)},
-    split={"rk": "each", "m": "each"},
-    witnesses=[{"m": 2, "j": 2, "r": 1, "none": False, "rk": 0}, {"m": 1, "j": 0, "r": 0, "none": True, "rk": 2}],
+    dom={"m": (0, 3), "j": (0, 2), "r": (0, 2), "none": "bool", "rk": (0, 3), "flavour": (0, 1), "trig": (0, 1)},
+    split={"rk": "each", "m": "each", "flavour": "each"},
+    witnesses=[{"m": 2, "j": 2, "r": 1, "none": False, "rk": 0, "flavour": 0, "trig": 0}, {"m": 1, "j": 0, "r": 0, "none": True, "rk": 2, "flavour": 0, "trig": 0},
+               {"m": 2, "j": 2, "r": 1, "none": False, "rk": 2, "flavour": 1, "trig": 0}, {"m": 0, "j": 1, "r": 1, "none": False, "rk": 3, "flavour": 1, "trig": 1}],
     budget=150,
     per_path=240,
-    bounds="asyncio worker_serve with max_requests in {None, 0..3}, max_requests_jitter 0..2 and every result r in [0, jitter] of the random draw: the worker begins its graceful exit exactly when it has taken on more than max_requests + r requests, and never when max_requests is None; the requests are HTTP/1.1 GETs, cleartext prior-knowledge HTTP/2 requests, h2c-upgraded requests or WebSocket handshakes, one per connection",
-    encodes=["hypercorn/asyncio/run.py::worker_serve", "hypercorn/asyncio/worker_context.py::WorkerContext.mark_request"],
-    stubs=["hypercorn.asyncio.run.randint replaced by a stub that records its arguments and returns the solver-chosen r", "tier C worker level"],
+    bounds="asyncio and trio worker_serve with max_requests in {None, 0..3}, max_requests_jitter 0..2 and every result r in [0, jitter] of the random draw: the worker begins its graceful exit exactly when it has taken on more than max_requests + r requests, and never when max_requests is None; the requests are HTTP/1.1 GETs, cleartext prior-knowledge HTTP/2 requests, h2c-upgraded requests or WebSocket handshakes, one per connection; the trio worker also without any external shutdown trigger",
+    encodes=["hypercorn/asyncio/run.py::worker_serve", "hypercorn/asyncio/worker_context.py::WorkerContext.mark_request", "hypercorn/trio/run.py::worker_serve", "hypercorn/trio/worker_context.py::WorkerContext.mark_request"],
+    stubs=["hypercorn.{asyncio,trio}.run.randint replaced by a stub that records its arguments and returns the solver-chosen r", "tier C worker level (trio: un-traced thread, see vf/stubs/twsess.py)"],
 )
-def worker_max_requests_jitter(m: int, j: int, r: int, none: bool, rk: int) -> bool:
+def worker_max_requests_jitter(m: int, j: int, r: int, none: bool, rk: int, flavour: int, trig: int) -> bool:
     """
-    pre: DOM(worker_max_requests_jitter, m=m, j=j, r=r, none=none, rk=rk)
+    pre: DOM(worker_max_requests_jitter, m=m, j=j, r=r, none=none, rk=rk, flavour=flavour, trig=trig)
     post: _
     """
     enter()
-    from vf.harness.c14 import make_app
-    from vf.stubs.wsess import WSession
+    from vf.harness.c14 import _session_class, make_app
 
+    flavour = conc(flavour, 0, 1)
+    trig = conc(trig, 0, 1)
+    if trig == 1 and flavour == 0:
+        return done(True, skipped="asyncio worker_serve without a shutdown trigger installs process-wide signal handlers: only the trio worker is run that way")
     m = conc(m, 0, 3)
     j = conc(j, 0, 2)
     r = conc(r, 0, 2)
@@ -349,7 +353,7 @@ def worker_max_requests_jitter(m: int, j: int, r: int, none: bool, rk: int) -> b
         return done(True, skipped="randint(0, j) cannot return more than j")
     cfg = make_config(startup_timeout=5, shutdown_timeout=4, graceful_timeout=3, keep_alive_timeout=50,
                       max_requests=None if none else m, max_requests_jitter=j)
-    s = WSession(make_app(0, 0, {}), cfg, jitter_result=r)
+    s = _session_class(flavour)(make_app(0, 0, {}), cfg, jitter_result=r) if trig == 0 else _session_class(flavour)(make_app(0, 0, {}), cfg, jitter_result=r, with_trigger=False)
     why = ""
     if none:
         if s.randint_calls:
@@ -395,4 +399,4 @@ def worker_max_requests_jitter(m: int, j: int, r: int, none: bool, rk: int) -> b
         if not s.returned:
             why = "worker did not return after reaching max_requests"
     s.close()
-    return done(why == "", max_requests=None if none else m, jitter=j, r=r, served=served, request_kind=["HTTP/1.1", "HTTP/2 prior knowledge", "h2c upgrade", "WebSocket"][rk], why=why)
+    return done(why == "", max_requests=None if none else m, jitter=j, r=r, served=served, request_kind=["HTTP/1.1", "HTTP/2 prior knowledge", "h2c upgrade", "WebSocket"][rk], worker=["asyncio", "trio"][flavour], external_trigger=trig == 0, why=why)
